@@ -60,6 +60,12 @@ class P(framework.Prop):
         for _ in range(N):
             d = wire.val(gen.rand_doc(rng, 3))
             L, R = sub(rng, 3), sub(rng, 3)
+            if rng.random() < 0.2:
+                R = "Identity"
+            if rng.random() < 0.25:
+                L = rng.choice(["Identity", "Field " + wire.s("a"), "Flatten Identity"])
+                d = wire.val([gen.rand_doc(rng, 2) if rng.random() < 0.6 else None for _ in range(rng.randint(0, 5))]
+                             if rng.random() < 0.6 else {"a": [None, 1, [None, 2], None, {"b": None}]})
             kind = rng.choice(["pipe", "proj", "filter", "mlist", "mhash", "not", "and", "or", "flatproj", "sliceproj", "valproj"])
             es = [sub(rng, 2) for _ in range(rng.randint(1, 3))]
             ks = [rng.choice(gen.KEYS) for _ in es]
